@@ -37,7 +37,7 @@ fn first_chunk_len<B: Buf>(b: &B) -> usize {
     b.chunk().len()
 }
 
-pub fn gen_op(rng: &mut Rng, rest_len: usize, chunk_len: usize, root_is_take: bool, root_is_chain: bool, focus: &str) -> J {
+pub fn gen_op(rng: &mut Rng, rest_len: usize, chunk_len: usize, first16: usize, root_is_take: bool, root_is_chain: bool, focus: &str) -> J {
     let n_arg = |rng: &mut Rng| -> usize {
         match rng.below(30) {
             0 | 1 => 0,
@@ -84,17 +84,24 @@ pub fn gen_op(rng: &mut Rng, rest_len: usize, chunk_len: usize, root_is_take: bo
         6 => J::obj().set("op", "reader_read").set("n", n_arg(rng)),
         7 => J::obj().set("op", "reader_fill_consume").set("n", rng.range(0, chunk_len)),
         8 => {
-            let lim = match rng.below(6) {
-                0 => 0,
-                1 => rest_len,
-                2 => usize::MAX,
-                3 => rest_len + 1,
-                _ => rng.range(0, rest_len.max(1)),
+            // first16 = bytes in the first 16 chunks the nest reports (0 if it has fewer): a limit that
+            // ends shortly after them, looked at through more than 16 slots
+            let many = first16 > 0 && first16 < rest_len && rng.chance(1, 3);
+            let lim = if many {
+                first16 + rng.range(0, 4)
+            } else {
+                match rng.below(6) {
+                    0 => 0,
+                    1 => rest_len,
+                    2 => usize::MAX,
+                    3 => rest_len + 1,
+                    _ => rng.range(0, rest_len.max(1)),
+                }
             };
-            let inner = match rng.below(4) {
+            let inner = match if many { 2 } else { rng.below(4) } {
                 0 => J::obj().set("op", "advance").set("n", rng.range(0, lim.min(rest_len))),
                 1 => J::obj().set("op", "copy_to_bytes").set("n", rng.range(0, lim.min(rest_len))),
-                2 => J::obj().set("op", "chunks_vectored").set("k", *rng.pick(&[1usize, 2, 3, 16, 17])),
+                2 => J::obj().set("op", "chunks_vectored").set("k", if many { *rng.pick(&[17usize, 20, 32]) } else { *rng.pick(&[1usize, 2, 3, 16, 17]) }),
                 _ => get_op(rng),
             };
             J::obj().set("op", "take_tmp").set("lim", lim).set("inner", inner)
@@ -416,7 +423,18 @@ pub fn run(plan: &J, given: Option<&[J]>, rng: &mut Rng, max_ops: usize, focus: 
     while k < n_ops && cx.viol.is_empty() && !ended {
         let op = match given {
             Some(g) => g[k].clone(),
-            None => gen_op(rng, rest.len(), node.chunk().len(), root_is_take, root_is_chain, focus),
+            None => {
+                let first16 = {
+                    let mut io = [std::io::IoSlice::new(&[]); 16];
+                    let n = node.chunks_vectored(&mut io);
+                    if n == 16 {
+                        io.iter().map(|s| s.len()).sum()
+                    } else {
+                        0
+                    }
+                };
+                gen_op(rng, rest.len(), node.chunk().len(), first16, root_is_take, root_is_chain, focus)
+            }
         };
         if given.is_none() {
             journal.line(&op.dump());
@@ -701,6 +719,15 @@ pub fn run(plan: &J, given: Option<&[J]>, rng: &mut Rng, max_ops: usize, focus: 
             Flow::Continue => {
                 if cx.viol.is_empty() {
                     check_state(&mut cx, &node, &rest, &format!("after {}", op.dump()));
+                    if name == "get" {
+                        // a cursor that is not exactly size_of::<X>() bytes further (or not untouched
+                        // after Err / a refusing panic) contradicts the typed-read property as well
+                        for v in cx.viol.iter_mut() {
+                            if !v.props.contains(&"C10") {
+                                v.props.push("C10");
+                            }
+                        }
+                    }
                 }
                 if cx.viol.is_empty() && root_is_take {
                     if let Node::Take(t) = &node {
